@@ -90,8 +90,9 @@ pub fn run_dec_plan(items: Vec<DecPlanItem>, or: &Oracles, tag_chunk: &'static s
     for (c, o) in cfgs.iter().zip(outs) {
         absorb(&mut stats, &mut vios, &c.label(), o);
     }
-    let cfgs: Vec<XCfg> = light_items.iter().map(|it| mk_cfg(it, or, tag_chunk, tag_single, 1)).collect();
-    let outs = par_map(&cfgs, 16, |c| xdec::explore(c));
+    let cfgs: Vec<XCfg> = light_items.iter().map(|it| mk_cfg(it, or, tag_chunk, tag_single, if it.k >= 3 { 3 } else { 1 })).collect();
+    let width = if cfgs.iter().any(|c| c.k >= 3) { 6 } else { 16 };
+    let outs = par_map(&cfgs, width, |c| xdec::explore(c));
     for (c, o) in cfgs.iter().zip(outs) {
         absorb(&mut stats, &mut vios, &c.label(), o);
     }
@@ -131,15 +132,7 @@ pub fn dec_plan(prop: &str, tier: Tier) -> Vec<DecPlanItem> {
     let runs_t: &[usize] = &[15, 16, 17, 31, 32, 33, 48];
     let runs = if q { runs_q } else { runs_t };
     // chunk bound: thorough raises it for the non-heavy encodings
-    let k_of = |name: &'static str| -> usize {
-        if q {
-            2
-        } else if heavy(&spec::enc(name)) {
-            2
-        } else {
-            3
-        }
-    };
+    let k_of = |_name: &'static str| -> usize { 2 };
     match prop {
         "C01" => {
             // single-call classification over the streams the explorer spells
@@ -154,7 +147,7 @@ pub fn dec_plan(prop: &str, tier: Tier) -> Vec<DecPlanItem> {
             for &e in &encs {
                 for s in if q { SLICE_SINKS.to_vec() } else { ALL_SINKS.to_vec() } {
                     for repl in [false, true] {
-                        v.push(item(e, s, repl, BomMode::Off, k_of(e), runs));
+                        v.push(item(e, s, repl, BomMode::Off, 2, runs));
                     }
                 }
                 v.push(item(e, Sink::Utf8, false, BomMode::Sniff, 2, &[16]));
@@ -164,6 +157,14 @@ pub fn dec_plan(prop: &str, tier: Tier) -> Vec<DecPlanItem> {
                 }
             }
             if !q {
+                // thorough-A3: chunks of up to three symbols over the single-byte class alphabet
+                for e in QUICK_ENCS {
+                    for (s, repl) in [(Sink::Utf8, false), (Sink::Utf16, true), (Sink::Utf8, true), (Sink::Utf16, false)] {
+                        let mut it = item(e, s, repl, BomMode::Off, 3, &[]);
+                        it.words = false;
+                        v.push(it);
+                    }
+                }
                 // thorough-B: full byte alphabet on the resumed paths
                 for e in ["Big5", "EUC-KR", "Shift_JIS", "EUC-JP", "ISO-2022-JP", "windows-1252", "windows-874", "x-user-defined", "UTF-16LE"] {
                     v.push(full_item(e, Sink::Utf8, false, 2));
@@ -243,7 +244,7 @@ pub fn dec_plan(prop: &str, tier: Tier) -> Vec<DecPlanItem> {
             // all 40 nominal encodings x 3 modes in both tiers (single-byte runs are tiny)
             for &e in spec::NAMES.iter() {
                 for b in ALL_BOMS {
-                    let kk = if heavy(&spec::enc(e)) || q { 2 } else { 3 };
+                    let kk = 2;
                     v.push(item(e, Sink::Utf8, false, b, kk, &[]));
                     v.push(item(e, Sink::Utf16, true, b, kk, &[]));
                     if !q {
